@@ -156,6 +156,19 @@ def check_dotdot(ctx, prog):
         if e.get('k') == 'bin' and e.get('op') == '=' and strip_lv(e['x']).get('k') == 'var' and strip(e['y']).get('k') == 'call' and strip(e['y']).get('pq') == 'asl::String::indexOf':
             jvars.add(strip_lv(e['x'])['id'])
 
+    # "match position or end of text": a local selected from a match variable without arithmetic is a match position too
+    changed_ = True
+    while changed_:
+        changed_ = False
+        for s_ in ir.walk_stmts(rp['body']):
+            if s_.get('k') == 'decl':
+                for v in s_['vars']:
+                    ini = v.get('init')
+                    if ini is not None and v['id'] not in jvars and T(rp, v['t']).get('int') and any(w.get('k') == 'var' and w.get('id') in jvars for w in walk_expr(ini)) and \
+                            not any(w.get('k') == 'bin' and w.get('op') in ('+', '-', '*') for w in walk_expr(ini)):
+                        jvars.add(v['id'])
+                        changed_ = True
+
     def is_patlen(x):
         x = strip(q.expand(rp, x))
         return x.get('k') == 'call' and (x.get('pq') or '').endswith('::length') and strip(x.get('obj') or {}).get('id') == pat
